@@ -228,8 +228,8 @@ fn emit(case: &Case, cq: usize, inst: &Instance, ex: &Exec, out: &mut impl Write
     let _ = writeln!(out, "F {}", final_obs(inst));
 }
 
-/// program pool of the exhaustive mode
-fn cases() -> Vec<Case> {
+/// program pool of the exhaustive mode (`full`: the larger pool of the thorough tier, bound >= 3)
+fn cases(full: bool) -> Vec<Case> {
     use Op::*;
     let mut v = Vec::new();
     let rprogs: Vec<Vec<Op>> = vec![
@@ -241,7 +241,7 @@ fn cases() -> Vec<Case> {
         // cold start: 1..3 send macro-ops against 1..4 receive/release ops
         for ns in 1..=3usize {
             for rp in &rprogs {
-                if ns + rp.len() > 5 && !(b == 1 && m == 1) { continue; }
+                if ns + rp.len() > 5 && !(full && b == 1 && m == 1) { continue; }
                 v.push(Case { cfg, pre: vec![], prog: [vec![Send; ns], rp.clone()] });
             }
         }
@@ -254,7 +254,7 @@ fn cases() -> Vec<Case> {
         for _ in 0..(b + m) { rounds.push(Rel(0)); rounds.push(Recv); }
         rounds.push(Rel(0));
         v.push(Case { cfg, pre: pre.clone(), prog: [vec![Send], rounds.clone()] });
-        v.push(Case { cfg, pre: pre.clone(), prog: [vec![Send, Send], rounds.clone()] });
+        if full || (b == 1 && m == 1 && !ovf) { v.push(Case { cfg, pre: pre.clone(), prog: [vec![Send, Send], rounds.clone()] }); }
         v.push(Case { cfg, pre: pre.clone(), prog: [vec![Reclaim, Send], vec![Rel(0), Recv, Rel(0)]] });
         // a few offsets only: the free list runs dry and reclaimed offsets are sent again
         let small = Cfg { b, m, ovf, k: 2 };
@@ -289,7 +289,7 @@ fn main() {
         "exh" => {
             let bound: usize = a[2].parse().unwrap(); let shard: usize = a[3].parse().unwrap(); let nsh: usize = a[4].parse().unwrap();
             let maxexecs: usize = a.get(6).map(|s| s.parse().unwrap()).unwrap_or(100000);
-            for (i, case) in cases().into_iter().enumerate() {
+            for (i, case) in cases(bound >= 3).into_iter().enumerate() {
                 if i % nsh != shard { continue; }
                 let cq = probe_cq(case.cfg);
                 let cur: std::cell::RefCell<Option<Instance>> = std::cell::RefCell::new(None);
